@@ -9,6 +9,16 @@ def run(tier):
     classes = en.cls("REQ", "GUARD", "SELECT", "RNG", "UTIL", "RANK")
     args = ["--tier", tier, "--dev", "2" if thorough else "1", "--batch", "3" if thorough else "2",
             "--classes", str(classes), "--deadline", str(1500 if thorough else 150), "--dev-immediate", "1" if thorough else "0"]
+    if thorough:
+        fam = en.systematic(4)
+        for p in fam:
+            p.args = ["--dev", "1", "--batch", "2"]
+        progs += fam
+        chk.coverage["systematic_family"] = {"programs": len(fam), "rule": "all ordered trees with <= 4 states: every region kind headed, composite/resumable/orthogonal also headless"}
+    if not thorough:
+        for p in progs:
+            if p.name in ("mixed14", "ortho89", "nestutil"):
+                p.args = ["--batch", "1"]  # the big programs: all single requests + deviations; pairs are covered on the smaller ones
     res = en.run_all(chk, "C01", progs, args, timeout=(2400 if thorough else 400))
     en.aggregate(chk, res, "C01")
     chk.coverage["explanation"] = (
